@@ -609,3 +609,72 @@ def r10(R):
         last = g.nodes[v.path[-2]] if len(v.path) > 1 else v.node
         R.violation(last, v.message, g, v.path,
                     key='failed undo leaves records in the buffer')
+
+
+# ------------------------------------------------------------------ C06.R11
+@rule('C06.R11', 'the data pointer _undoDataInfo reports for the current '
+      'record is the position of the record it read -- for a record an '
+      'earlier undo of the same transaction wrote into the buffer, the '
+      'buffered record\'s position, not the committed one\'s -- or the '
+      'record\'s backpointer', props=['C03'], min_instances=1)
+def r11(R):
+    cls = R.prog.cls(FS)
+    f = R.method(cls, '_undoDataInfo')
+    g, b, F = R.cfg(f, cls, max_depth=0)
+    ps = [p for p in f.params if p != 'self']
+    R.require(len(ps) >= 3, '_undoDataInfo(oid, pos, tpos) changed')
+    committed, buffered = ps[1], ps[2]
+    seen = [0]
+
+    def edge(node, st, lab, tgt):
+        branch, kinds = st
+        kinds = dict(kinds)
+        if node.kind == 'test' and lab in ('T', 'F') and branch is None:
+            for e, truth in implied_atoms(node.ast, lab):
+                if isinstance(e, ast.Name) and e.id == buffered and \
+                        kinds.get(buffered, 'buffered-pos') == 'buffered-pos':
+                    branch = 'buffered' if truth else 'committed'
+        if lab in ('e', 'eb'):
+            return (branch, frozenset(kinds.items()))
+        for op in F.ops(node):
+            if op.kind == 'store' and op.path and op.path[0] == '%local':
+                v = store_value(op)
+                k = 'other'
+                if isinstance(v, ast.Name):
+                    k = kinds.get(v.id, 'committed-pos' if v.id == committed
+                                  else 'buffered-pos' if v.id == buffered
+                                  else 'other')
+                elif isinstance(v, ast.Attribute) and v.attr == 'back':
+                    k = 'backpointer'
+                kinds[op.path[1]] = k
+        return (branch, frozenset(kinds.items()))
+
+    def at(node, st):
+        branch, kinds = st
+        kinds = dict(kinds)
+        if node.kind == 'return' and isinstance(node.ast.value, ast.Tuple) \
+                and len(node.ast.value.elts) == 3:
+            seen[0] += 1
+            e = node.ast.value.elts[1]
+            if isinstance(e, ast.Name):
+                k = kinds.get(e.id, 'committed-pos' if e.id == committed
+                              else 'buffered-pos' if e.id == buffered
+                              else 'other')
+                if branch == 'buffered' and k == 'committed-pos':
+                    return Violation(
+                        '_undoDataInfo reads the record an earlier undo of '
+                        'this transaction wrote into the buffer but reports '
+                        'the COMMITTED record\'s position as its data '
+                        'pointer: _transactionalUndoRecord then finds '
+                        '"current pointer == record being undone", skips '
+                        'its comparison and writes a plain backpointer -- '
+                        'the effect of the earlier undo is silently lost')
+        return st
+
+    vs, stats = explore(g, (None, frozenset()), at=at, edge=edge)
+    R.count(stats)
+    R.instance('FileStorage._undoDataInfo')
+    R.require(seen[0] or vs, '_undoDataInfo no longer returns (tid, pointer, '
+              'data)')
+    for v in vs:
+        R.violation(v.node, v.message, g, v.path)
